@@ -799,7 +799,12 @@ class FldExporter(Exporter):
         if self.input_values:
             values.append(engine.input_values)
         if self.output_values:
-            values.append(engine.output_values)
+            # output values that do not depend on the input values are single values: one row per row of input values
+            output_values = engine.output_values
+            if engine.output_variables:
+                rows, columns = len(input_values), len(engine.output_variables)
+                output_values = np.broadcast_to(output_values, (rows, columns))
+            values.append(output_values)
         if not values:
             values.append([])
 
